@@ -324,6 +324,8 @@ def _fold_arithmetic_chain(tokens: pp.ParseResults) -> float:
         if op == "*":
             result = result * operand
         elif op == "/":
+            if operand == 0:
+                raise pp.ParseFatalException("division by zero in constant arithmetic")
             result = result / operand
         elif op == "+":
             result = result + operand
